@@ -1,4 +1,5 @@
 import BronVerif.Model.CheckGraph
+import BronVerif.Model.CheckGraphVec
 /-! Lemmas about the receiver loop `CheckGraph.receive` and the gate `CheckGraph.release`
 (core-only proofs; used by `Props/C04.lean`). -/
 namespace BronVerif.CheckGraph
@@ -70,6 +71,81 @@ theorem receive_blame (preds : List Pred) (passes : Pred → ι → Bool) (sende
         subst h
         exact ⟨List.mem_cons_self, p, hp, ht, hfalse⟩
       · simp [ht] at h
+
+/-! ### the receiver loop over per-row families -/
+
+theorem receiveRows_accept_iff (preds : List Pred) (rows : ι → Nat) (passes : CompPred → ι → Bool)
+    (senders : List ι) :
+    receiveRows preds rows passes senders = .accept ↔
+      ∀ s ∈ senders, ∀ c ∈ componentsOf preds (rows s), passes c s = true := by
+  induction senders with
+  | nil => simp [receiveRows]
+  | cons s rest ih =>
+    unfold receiveRows
+    cases hf : (componentsOf preds (rows s)).find? (fun c => !passes c s) with
+    | none =>
+      simp only [ih]
+      have hs : ∀ c ∈ componentsOf preds (rows s), passes c s = true := by
+        intro c hc
+        have := List.find?_eq_none.1 hf c hc
+        simpa using this
+      constructor
+      · intro h t ht
+        rcases List.mem_cons.1 ht with rfl | ht
+        · exact hs
+        · exact h t ht
+      · intro h t ht
+        exact h t (List.mem_cons_of_mem _ ht)
+    | some c =>
+      have hm := List.mem_of_find?_eq_some hf
+      have hp := List.find?_some hf
+      constructor
+      · intro h; cases h
+      · intro h
+        have := h s (List.mem_cons_self) c hm
+        simp [this] at hp
+
+/-- whoever is blamed sent a message on which a member of a *tagged* family failed -/
+theorem receiveRows_blame (preds : List Pred) (rows : ι → Nat) (passes : CompPred → ι → Bool)
+    (senders : List ι) (b : ι) (h : receiveRows preds rows passes senders = .reject (some b)) :
+    b ∈ senders ∧ ∃ c ∈ componentsOf preds (rows b), c.pred.tagged = true ∧ passes c b = false := by
+  induction senders with
+  | nil => simp [receiveRows] at h
+  | cons s rest ih =>
+    unfold receiveRows at h
+    cases hf : (componentsOf preds (rows s)).find? (fun c => !passes c s) with
+    | none =>
+      rw [hf] at h
+      have ⟨hb, hp⟩ := ih h
+      exact ⟨List.mem_cons_of_mem _ hb, hp⟩
+    | some c =>
+      rw [hf] at h
+      have hm := List.mem_of_find?_eq_some hf
+      have hp := List.find?_some hf
+      by_cases ht : c.pred.tagged = true
+      · simp [ht] at h
+        subst h
+        exact ⟨List.mem_cons_self, c, hm, ht, by simpa using hp⟩
+      · simp [ht] at h
+
+/-- every member of a family belongs to a predicate of the graph -/
+theorem mem_componentsOf (preds : List Pred) (rows : Nat) (c : CompPred)
+    (h : c ∈ componentsOf preds rows) : c.pred ∈ preds := by
+  unfold componentsOf at h
+  rcases List.mem_flatMap.1 h with ⟨p, hp, hc⟩
+  unfold Pred.components at hc
+  split at hc
+  · rcases List.mem_map.1 hc with ⟨i, _, rfl⟩
+    exact hp
+  · have : c = ⟨p, 0⟩ := by simpa using hc
+    subst this
+    exact hp
+
+/-- a per-row predicate contributes one member per row -/
+theorem components_perRow (p : Pred) (rows i : Nat) (hp : p.perRow = true) (hi : i < rows) :
+    (⟨p, i⟩ : CompPred) ∈ p.components rows := by
+  unfold Pred.components
+  simp [hp, hi]
 
 theorem release_some {α : Type} (verdicts : List (Verdict ι)) (gate : Bool) (out o : α)
     (h : release verdicts gate out = some o) :
